@@ -26,6 +26,10 @@ func main() {
 	switch os.Args[1] {
 	case "rslquery":
 		err = fam.RSLQuery(*scn, *out, *seed, *n)
+	case "signatures":
+		err = fam.Signatures(*scn, *out, *seed, *n)
+	case "faults":
+		err = fam.Faults(*out, *seed)
 	case "writers":
 		err = fam.Writers(*scn, *out, *seed, *n)
 	case "codec":
